@@ -195,7 +195,7 @@ def validate_traces(specdir, scratch, traces, rep, nshards=None):
         common.write_ndjson(p, (traces[k] for k in idx))
         envs.append({'TRACE_FILE': p})
     results = common.run_tlc_shards(specdir, 'Trace_HighJump', 'Trace_HighJump.cfg', envs, workers_each=1,
-                                    timeout=3000, heap='3g')
+                                    timeout=TLC_TIMEOUT, heap='3g')
     out = []
     nsteps = sum(len(t['steps']) for t in traces)
     for idx, r in zip(shards, results):
@@ -225,7 +225,12 @@ def _model_run(args):
     return name, common.run_tlc(specdir, name, name + '.cfg', **kw)
 
 
+TLC_TIMEOUT = 3000
+
+
 def run(pid, tier):
+    global TLC_TIMEOUT
+    TLC_TIMEOUT = 3000 if tier == 'quick' else 14400      # thorough: a loaded machine must not turn into a machinery failure
     rep = Report(pid, tier, 'model_checking')
     rng = random.Random(common.seed() * 7919 + {'C02': 2, 'C03': 3, 'C08': 8}[pid])
     quick = tier == 'quick'
@@ -248,7 +253,7 @@ def run(pid, tier):
             tie = dict(nb=4, bars=[95, 100, 105], maxh_extra=1 if quick else 2, mode='ok', emit=20 if quick else 60)
         invs = ['NoBadStep', 'EmitState', 'EmitTaint'] + (['ReplayLogOK', 'RoundTripOKnoJOpass'] if pid == 'C08' else [])
         n1 = mc_cfg(specdir, 'MC_exh', exh['nb'], exh['bars'], exh['maxh'], 0, exh['mode'], exh['emit'], invs)
-        runs.append((specdir, n1, dict(workers=8, timeout=3000, heap='8g')))
+        runs.append((specdir, n1, dict(workers=8, timeout=TLC_TIMEOUT, heap='8g')))
         starts = [script(t) for t in TIE_STARTS]
         tie_names = []
         for k, st in enumerate(starts):
@@ -262,7 +267,7 @@ def run(pid, tier):
             nm = mc_cfg(specdir, 'MC_tie%d' % k, nb_, tie['bars'], nreg + extra, 0, tie['mode'],
                         tie['emit'], invs, starts=[st])
             tie_names.append(nm)
-            runs.append((specdir, nm, dict(workers=4 if nath >= 3 and k in (0, 4) else 2, timeout=3000, heap='3g')))
+            runs.append((specdir, nm, dict(workers=4 if nath >= 3 and k in (0, 4) else 2, timeout=TLC_TIMEOUT, heap='3g')))
         nsim = {'C02': 40, 'C03': 60, 'C08': 30}[pid] * (1 if quick else 8)
         sim_names = []
         for k in range(4):
@@ -270,7 +275,7 @@ def run(pid, tier):
                         ['NoBadStep', 'EmitLog'], view=False)
             sim_names.append(nm)
             runs.append((specdir, nm, dict(workers=1, simulate='num=%d' % nsim, depth=60,
-                                           seed_=common.seed() * 101 + 11 + k, deadlock=False, timeout=3000, heap='2g')))
+                                           seed_=common.seed() * 101 + 11 + k, deadlock=False, timeout=TLC_TIMEOUT, heap='2g')))
         from concurrent.futures import ThreadPoolExecutor
         with ThreadPoolExecutor(max_workers=len(runs)) as ex:
             results = dict(ex.map(_model_run, runs))
@@ -487,7 +492,7 @@ def order_independence(rep, rng, quick, specdir, sc):
     with open(os.path.join(specdir, 'MC_round.cfg'), 'w') as f:
         f.write('SPECIFICATION Spec\nCONSTANTS\n StartLogs <- StartLogsDef\n PlanMenu <- PlanMenuDef\n'
                 'INVARIANT OrderIndependent\nVIEW View\nCHECK_DEADLOCK FALSE\n')
-    r = common.run_tlc(specdir, 'MC_round', 'MC_round.cfg', timeout=3000, heap='8g')
+    r = common.run_tlc(specdir, 'MC_round', 'MC_round.cfg', timeout=TLC_TIMEOUT, heap='8g')
     if r.violated:
         raise MachineryError('the model itself is order dependent (MC_round): specification must be corrected\n' + r.out[-3000:])
     rep.absorb_tlc(r)
@@ -520,7 +525,7 @@ def order_independence(rep, rng, quick, specdir, sc):
         pth = sc.file('round_%d.ndjson' % k)
         common.write_ndjson(pth, (recs[q] for q in idx))
         envs.append({'TRACE_FILE': pth})
-    results = common.run_tlc_shards(specdir, 'Trace_HJRound', 'Trace_HJRound.cfg', envs, workers_each=1, timeout=3000)
+    results = common.run_tlc_shards(specdir, 'Trace_HJRound', 'Trace_HJRound.cfg', envs, workers_each=1, timeout=TLC_TIMEOUT)
     for idx, r in zip(shards, results):
         if r.distinct != len(idx):
             raise MachineryError('round trace shard not fully consumed')
